@@ -13,35 +13,39 @@ REG = dict(category="exploration",
     "address and every load/store address+size between the markers is digested, cut at every secp256k1_declassify (guarded hook) whose VALUE becomes part of the "
     "key. K secret assignments per API (seeded random plus structured: 1, n-1, zero high half, fixed key with varying nonce secrets) x public variants "
     "(randomized/unrandomized context, optional arguments, MuSig signer count/adaptor). TLC validates the event trace; any divergence between runs that agree on "
-    "public inputs and on everything declassified so far is a violation.",
-    note="Secrets are SAMPLED, not quantified: a secret-dependent branch that all sampled secrets take the same way is invisible (the maintainers' valgrind-memcheck "
-    "ctime_tests is the tool for the full quantifier and is a different technique). Code after a secret-derived declassification is compared only between runs that "
-    "declassified identical bytes. Micro-architectural leaks and the declassification annotations themselves are out of scope. Trusted: valgrind lackey, TLC.",
+    "public inputs and on everything declassified so far is a violation. SECOND OBSERVATION (taint mode): the same runner built with -DVALGRIND and without the "
+    "verification hooks runs every (API, public variant) once under valgrind memcheck; at the begin marker all secret arguments and the secret parts of derived "
+    "objects are marked undefined (for the variant 'context randomized with a secret seed' already before context_randomize), the context honours the library's "
+    "declassifications (SECP256K1_CONTEXT_DECLASSIFY), and every definedness report between the markers (branch or address computed from undefined data) becomes "
+    "a Tainted event of the trace, for which the specification has no transition.",
+    note="The lackey half SAMPLES secrets (a secret-dependent branch that all sampled secrets take the same way is invisible to it); the taint half tracks definedness "
+    "per executed path for all secret values but sees only the paths the one run per (API, variant) executes. Code after a secret-derived declassification is compared only between runs that "
+    "declassified identical bytes. Micro-architectural leaks and the declassification annotations themselves are out of scope. Trusted: valgrind lackey and memcheck, TLC.",
     technique="TLA+ non-interference trace specification validated by TLC against lock-step control-flow/address traces recorded from the compiled library "
-    "(valgrind lackey between markers, cut at declassification hooks)",
+    "(valgrind lackey between markers, cut at declassification hooks) and against valgrind-memcheck definedness reports of the same calls with the secrets undefined",
     design_ref="DESIGN.md §4 C06, §6")
 
 N = 0xFFFFFFFFFFFFFFFFFFFFFFFFFFFFFFFEBAAEDCE6AF48A03BBFD25E8CD0364141
 APIS = {   # api -> public variants (bit0: randomized context; other bits: optional arguments / signer counts)
-    "pubkey_create": [0, 1], "ecdsa_sign": [0, 1, 2], "ecdsa_sign_recoverable": [0, 1], "ecdh": [0, 1], "seckey_verify": [0], "seckey_negate": [0],
+    "pubkey_create": [0, 8, 1], "ecdsa_sign": [0, 8, 2, 1], "ecdsa_sign_recoverable": [0, 1], "ecdh": [0, 1], "seckey_verify": [0], "seckey_negate": [0],
     "seckey_tweak_add": [0], "seckey_tweak_mul": [0], "keypair_create": [0, 1], "keypair_xonly_tweak_add": [0], "keypair_sec": [0],
-    "schnorrsig_sign": [0, 2, 3], "ellswift_create": [0, 2], "ellswift_xdh": [0, 2], "s2c_sign": [0, 1], "anti_exfil_host_commit": [0],
+    "schnorrsig_sign": [0, 2, 8, 3], "ellswift_create": [0, 2], "ellswift_xdh": [0, 2], "s2c_sign": [0, 1], "anti_exfil_host_commit": [0],
     "anti_exfil_signer_commit": [0], "adaptor_encrypt": [0, 2], "adaptor_decrypt": [0], "context_randomize": [0, 1],
     "musig_nonce_gen": [0, 2], "musig_partial_sign": [0, 2, 6], "musig_adapt": [0, 1],
 }
-QUICK_APIS = ["pubkey_create", "ecdsa_sign", "ecdh", "seckey_tweak_add", "seckey_tweak_mul", "keypair_create", "schnorrsig_sign", "ellswift_create",
+QUICK_APIS = ["pubkey_create", "ecdsa_sign", "ecdsa_sign_recoverable", "ecdh", "seckey_tweak_add", "seckey_tweak_mul", "keypair_create", "schnorrsig_sign", "ellswift_create",
               "ellswift_xdh", "s2c_sign", "adaptor_encrypt", "adaptor_decrypt", "musig_nonce_gen", "musig_partial_sign", "context_randomize", "seckey_negate"]
 MODS = ("-DENABLE_MODULE_BPPP=1 -DENABLE_MODULE_ECDH=1 -DENABLE_MODULE_ECDSA_ADAPTOR=1 -DENABLE_MODULE_ECDSA_S2C=1 -DENABLE_MODULE_ELLSWIFT=1 "
         "-DENABLE_MODULE_EXTRAKEYS=1 -DENABLE_MODULE_GENERATOR=1 -DENABLE_MODULE_MUSIG=1 -DENABLE_MODULE_RANGEPROOF=1 -DENABLE_MODULE_SCHNORRSIG=1 "
         "-DENABLE_MODULE_SCHNORRSIG_HALFAGG=1 -DENABLE_MODULE_SURJECTIONPROOF=1 -DENABLE_MODULE_WHITELIST=1 -DENABLE_MODULE_RECOVERY=1").split()
 VARIANT_FLAGS = {"std": ["-DUSE_ASM_X86_64=1"], "noasm": [], "i64": ["-DUSE_FORCE_WIDEMUL_INT64=1"]}
 
-def build_runner(chk, variant):
+def build_runner(chk, variant, taint=False):
     d = chk.out + "/ct_" + variant; os.makedirs(d, exist_ok=True)
     shim = d + "/ct_runner_shim.c"
     open(shim, "w").write(open(vlib.VERIF + "/harness/ct_runner.c").read().replace('"../../repo/', '"%s/' % vlib.REPO))
-    exe = d + "/ct_runner"
-    cmd = ["gcc", "-O2", "-g", "-no-pie", "-DSECP256K1_ZKP_VERIF=1", "-DCOMB_BLOCKS=43", "-DCOMB_TEETH=6", "-DECMULT_WINDOW_SIZE=15"] + VARIANT_FLAGS[variant] + MODS + \
+    exe = d + ("/ct_runner_taint" if taint else "/ct_runner")
+    cmd = ["gcc", "-O2", "-g", "-no-pie", "-DCOMB_BLOCKS=43", "-DCOMB_TEETH=6", "-DECMULT_WINDOW_SIZE=15"] + (["-DVH_CT_TAINT=1", "-DVALGRIND=1"] if taint else ["-DSECP256K1_ZKP_VERIF=1"]) + VARIANT_FLAGS[variant] + MODS + \
           ["-I" + vlib.REPO, "-I" + vlib.REPO + "/src", "-I" + vlib.REPO + "/include", "-Wno-unused-function", shim,
            vlib.REPO + "/src/precomputed_ecmult.c", vlib.REPO + "/src/precomputed_ecmult_gen.c", "-o", exe]
     p = vlib.run(cmd, 600)
@@ -117,6 +121,66 @@ def one_run(args):
         return (api, var, idx, None, "markers not found / declassification count mismatch (%d vs %d)" % (di, len(side["declass"])))
     return (api, var, idx, evs, nlines)
 
+TAINT_RE = re.compile(rb"^==\d+== (Conditional jump or move depends on uninitialised value\(s\)|Use of uninitialised value of size \d+)\n==\d+==\s+at 0x[0-9A-Fa-f]+: ([^\n]*)", re.M)
+def taint_run(args):
+    """one run under valgrind memcheck with the secrets marked undefined at the begin marker (ct_runner.c, TAINT MODE)"""
+    exe, d, api, var, sec = args
+    work = "%s/t_%s" % (d, hashlib.sha256(("%s/%d" % (api, var)).encode()).hexdigest()[:16]); os.makedirs(work, exist_ok=True)
+    open(work + "/secret.bin", "wb").write(sec)
+    p = subprocess.run(["valgrind", "--tool=memcheck", "--error-limit=no", "--undef-value-errors=yes", "--log-file=mc.log", exe, api, str(var), "secret.bin", "side.json"],
+                       cwd=work, stdout=subprocess.PIPE, stderr=subprocess.STDOUT, timeout=900)
+    if p.returncode != 0:
+        return (api, var, None, "ct_runner_taint/valgrind exit %d: %s" % (p.returncode, p.stdout[-300:]))
+    data = open(work + "/mc.log", "rb").read()
+    side = json.load(open(work + "/side.json"))
+    evs = [{"e": "Call", "api": api, "pub": [var] + list(hashlib.sha256(bytes(side.get("pubin", []))).digest()[:8])}]
+    for m in TAINT_RE.finditer(data):
+        evs.append({"e": "Tainted", "kind": "branch" if m.group(1).startswith(b"Cond") else "address", "at": m.group(2).decode(errors="replace")[:160]})
+    evs.append({"e": "Return"})
+    import shutil; shutil.rmtree(work, ignore_errors=True)
+    return (api, var, evs, len(data))
+
+def taint_part(chk, variant, apis, variants_of, secs):
+    """T: memcheck definedness reports between the markers are events of the trace; the specification has no transition for them"""
+    exe, marks, d = build_runner(chk, variant, taint=True)
+    jobs = [(exe, d, api, var, secs[0]) for api in apis for var in variants_of(api)]
+    with cf.ThreadPoolExecutor(max_workers=16) as ex:
+        results = list(ex.map(taint_run, jobs))
+    groups = collections.OrderedDict()
+    for (api, var, evs, info) in results:
+        if evs is None: raise Infra("taint recording failed for %s/%d on %s: %s" % (api, var, variant, info))
+        groups[(api, var)] = evs
+        chk.case_labels["taint:%s/var%d/%s" % (api, var, variant)] += 1
+    chk.traces_validated += len(results); chk.evaluations += len(results)
+    tpath = "%s/ct_%s_taint.trace.ndjson" % (chk.out, variant)
+    reported = 0
+    while groups:
+        events = [e for evs in groups.values() for e in evs]
+        vlib.write_ndjson(tpath, events)
+        r = chk.tlc(MODULE, "C06_trace.cfg", env={"TRACE": tpath}, workers=1, expect_ok=False, timeout=1800)
+        if "Invariant NotAccepted is violated" in r.out:
+            log("[C06] %s: %d runs under memcheck with the secrets undefined: no branch or address computed from undeclassified secret data (%.1fs TLC)" % (variant, len(groups), r.wall))
+            break
+        if not r.ok: raise Infra("C06 taint trace validation could not be evaluated:\n" + r.tail(40))
+        lo, hi = 0, len(events)
+        while lo < hi:
+            mid = (lo + hi + 1) // 2
+            vlib.write_ndjson(tpath, events[:mid])
+            rr = chk.tlc(MODULE, "C06_trace.cfg", env={"TRACE": tpath}, workers=1, expect_ok=False, timeout=1800)
+            if "Invariant NotAccepted is violated" in rr.out: lo = mid
+            else: hi = mid - 1
+        j = lo
+        while j > 0 and events[j]["e"] != "Call": j -= 1
+        call = events[j]; bad = events[lo] if lo < len(events) else {}
+        chk.violation("%s (public variant %s, build %s): %s computed from secret data that was never declassified, at %s (valgrind memcheck with the secret arguments marked undefined; "
+                      "event %d of the trace has no transition in the specification)" % (call["api"], call["pub"][0], variant, bad.get("kind", "?"), bad.get("at", "?"), lo + 1),
+                      events[j:lo + 1], variant)
+        del groups[(call["api"], call["pub"][0])]
+        reported += 1
+        if reported >= 6: break
+    chk.notes.append("%s: %d runs under valgrind memcheck (secrets undefined at the begin marker, library declassifications honoured)" % (variant, len(results)))
+
+
 def run(chk):
     quick = chk.tier == "quick"
     chk.model("C06_Model.tla", "C06_model.cfg")
@@ -179,6 +243,9 @@ def run(chk):
                           events[j:lo + 1], variant)
             del by_group[grp]          # keep checking the other APIs
             if not by_group: break
+    # ---- definedness tracking (the maintainers' discipline, src/ctime_tests.c) as a second observation of the same runs ----
+    for variant in (["std"] if quick else ["std", "noasm", "i64"]):
+        taint_part(chk, variant, apis, (lambda a: APIS[a][:3] if quick else APIS[a]), secs)
     return chk.finish(LEVEL,
         "each (API, public variant) is executed with K sampled secret assignments under valgrind lackey; the digest of every instruction/load/store observation "
         "between markers, cut at declassification points, must be a function of (api, public variant, declassified values so far). distinct_nontrivial counts "
